@@ -100,6 +100,17 @@ def check(ctx):
         N = Norm(fn)
         ms = q.matches_on(fn["body"], lambda t: t.startswith("scale_info::TypeDef<"))
         arms = arms_by_variant(ms[0]) if ms else {}
+        if "Variant" in arms:
+            calls = [n for n in q.calls_to(arms["Variant"]["body"], "rust_value::fields_example")]
+            i_flag = 1
+            flags = [show(N.term(c["args"][i_flag])) for c in calls]
+            ctx.expect(flags == ["false"], "C14.4", "marker-source/variants-never", site(arms["Variant"]),
+                       "enum variants never carry the marker (the generator emits a separate __Ignore variant instead)", "variant fields are emitted with marker flag %s" % flags)
+        if "Composite" in arms:
+            calls = [n for n in q.calls_to(arms["Composite"]["body"], "rust_value::fields_example")]
+            flags = [show(N.term(c["args"][1])) for c in calls]
+            ctx.expect(flags == ["rust_value::has_unused_type_params(P2,P1)?"], "C14.4", "marker-source/structs", site(arms["Composite"]),
+                       "struct literals get the marker iff the generator's IR of THIS type has unused parameters", "struct marker flag is %s" % flags)
         if "Tuple" in arms:
             tt = [T.render(items) for node, items, kind, parent in T.find_templates(arms["Tuple"]["body"])]
             ctx.expect(tt == ["( #( #fields , )* )"] or (len(tt) == 1 and re.fullmatch(r"\( #\( #\w+ , \)\* \)", tt[0])), "C14.5", "tuple-form", site(arms["Tuple"]),
@@ -129,9 +140,9 @@ def check(ctx):
                "but the Rust example emitter never reads that marker: for `struct S { b: Box<u32> }` it emits `S { b: 5u32 }`, which is not an instance of the generated `b: Box<u32>`")
     DR.seed_and_rng(ctx, "C14.9", M)
     DR.transformer_guard(ctx, "C14.9", M)
-    g, table = DR.graph(ctx)
     entry = q.fn1(P, "rust_value::example_from_seed", D)
     if entry is not None:
+        g, table = DR.graph(ctx, entry["path"])
         reach = k10.reachable(g, [entry["path"]])
         # only the description crate's own functions: the generator's sites are C10's
         with ctx.only(lambda k: "type_def_is_copy" in k or "rust_value::ty_example" in k):
